@@ -108,6 +108,7 @@ Clauses ==
    X06_CPNoPanic |-> X06_CPNoPanic(ev),
    X06_AdjustNoPanic |-> X06_AdjustNoPanic(ev),
    X06_AdjustGuard |-> X06_AdjustGuard(pre, ev, st),
+   X05_OtherDenomRejected |-> X05_OtherDenomRejected(ev),
    X12_Farm_Escrow |-> X12_Farm_Escrow(st),
    X12_Farm_RoundTrip |-> X12_Farm_RoundTrip(pre, ev, st)]
 
@@ -118,15 +119,90 @@ Failing == IF ev.name = "Init" \/ ev.halt
 (* Evaluated by TLC in every state; always TRUE, reports as a side effect *)
 Monitor == Failing = {} \/ PrintT(<<"CLAUSE-FAIL", l - 1, Failing, Apply(pre, ev).why>>)
 
+(* life-cycle state of the pool an event names, in the observed pre-state *)
+Known(e) == e.pool \in DOMAIN pre.pools
+QueuedP(p) == <<pre.pools[p].end, p>> \in pre.queue
+NotStartedP(p) == QueuedP(p) /\ pre.pools[p].start > pre.h
+OverP(p) == ~QueuedP(p)                       \* refunded: ended or destroyed
+NeverRanP(p) == OverP(p) /\ pre.pools[p].end = pre.pools[p].start   \* destroyed at or before its start
+SameBlockP(p) == OverP(p) /\ pre.pools[p].end = pre.h              \* destroyed earlier in this very block
+LastBlockP(p) == QueuedP(p) /\ pre.pools[p].end = pre.h
+PoolOps == FarmerOps \cup {"AdjustPool", "DestroyPool"}
+RoleOf(e) == IF pre.pools[e.pool].creator = e.who THEN "creator"
+             ELSE IF e.who \in DOMAIN pre.fi[e.pool] THEN "staker" ELSE "stranger"
+(* what an end-block handed back for pool p, per denom *)
+RefundAmt(p, d) == Drop(pre, st, p, d) - RateDue(pre, st, p, d)
+ZeroRefund(p) == \A d \in DOMAIN pre.pools[p].rules : RefundAmt(p, d) = 0
+
 (* antecedent counters (vacuity): which clauses were exercised non-trivially *)
 Exercised ==
-  {c \in {"unstake_ok", "unstake_rej", "stake_ok", "harvest_ok", "refund", "release",
+  {c \in {"stake_notstarted", "stake_over", "stake_neverran", "stake_sameblock", "stake_lastblock",
+          "harvest_over", "harvest_neverran", "harvest_sameblock", "harvest_nostake",
+          "unstake_over_ok", "unstake_sameblock_ok", "unstake_nostake", "unstake_toomuch",
+          "adjust_over", "adjust_neverran", "adjust_sameblock", "adjust_notstarted_ok",
+          "destroy_over", "destroy_neverran", "destroy_notstarted_ok", "destroy_stranger", "destroy_staked_ok",
+          "destroy_nothing_left", "create_second",
+          "role_creator", "role_staker", "role_stranger",
+          "refund_many", "refund_zero", "refund_many_one_zero", "refund_and_destroy_sameblock", "refund_part_zero",
+          "odd_start",
+          "other_denom", "other_denom_staker", "odd_pool", "odd_lpt", "odd_adjust",
+          "unstake_ok", "unstake_rej", "stake_ok", "harvest_ok", "refund", "release",
           "adjust_ok", "destroy_ok", "create_ok", "reject", "payout",
           "adjust_rej", "adjust_expired", "adjust_stranger", "adjust_lastblock",
           "cp_create_ok", "cp_create_rej", "cp_unwired", "cp_deposit", "cp_vote", "cp_cancel",
           "cp_pass", "cp_back", "cp_dropped", "cp_stake", "cp_payout", "cp_pool_refund",
           "cp_two_pending", "reimport", "reimport_pending", "reimport_pools"} :
-     CASE c = "unstake_ok" -> ev.name = "Unstake" /\ ev.ok
+     CASE c = "stake_notstarted" -> ev.name = "Stake" /\ Known(ev) /\ NotStartedP(ev.pool)
+       [] c = "stake_over" -> ev.name = "Stake" /\ Known(ev) /\ OverP(ev.pool)
+       [] c = "stake_neverran" -> ev.name = "Stake" /\ Known(ev) /\ NeverRanP(ev.pool) /\ pre.h > pre.pools[ev.pool].end
+       [] c = "stake_sameblock" -> ev.name = "Stake" /\ Known(ev) /\ SameBlockP(ev.pool)
+       [] c = "stake_lastblock" -> ev.name = "Stake" /\ ev.ok /\ LastBlockP(ev.pool)
+       [] c = "harvest_over" -> ev.name = "Harvest" /\ Known(ev) /\ OverP(ev.pool) /\ ev.who \in DOMAIN pre.fi[ev.pool]
+       [] c = "harvest_neverran" -> ev.name = "Harvest" /\ Known(ev) /\ NeverRanP(ev.pool)
+       [] c = "harvest_sameblock" -> ev.name = "Harvest" /\ Known(ev) /\ SameBlockP(ev.pool)
+                                     /\ ev.who \in DOMAIN pre.fi[ev.pool]
+       [] c = "harvest_nostake" -> ev.name = "Harvest" /\ Known(ev) /\ ~OverP(ev.pool)
+                                   /\ ev.who \notin DOMAIN pre.fi[ev.pool]
+       [] c = "unstake_over_ok" -> ev.name = "Unstake" /\ ev.ok /\ OverP(ev.pool) /\ pre.h > pre.pools[ev.pool].end
+       [] c = "unstake_sameblock_ok" -> ev.name = "Unstake" /\ ev.ok /\ SameBlockP(ev.pool)
+       [] c = "unstake_nostake" -> ev.name = "Unstake" /\ Known(ev) /\ ev.who \notin DOMAIN pre.fi[ev.pool]
+       [] c = "unstake_toomuch" -> ev.name = "Unstake" /\ Known(ev) /\ ev.who \in DOMAIN pre.fi[ev.pool]
+                                   /\ ev.amt > pre.fi[ev.pool][ev.who].locked
+       [] c = "adjust_over" -> ev.name = "AdjustPool" /\ Known(ev) /\ OverP(ev.pool) /\ RoleOf(ev) = "creator"
+                               /\ pre.pools[ev.pool].editable
+       [] c = "adjust_neverran" -> ev.name = "AdjustPool" /\ Known(ev) /\ NeverRanP(ev.pool) /\ RoleOf(ev) = "creator"
+       [] c = "adjust_sameblock" -> ev.name = "AdjustPool" /\ Known(ev) /\ SameBlockP(ev.pool) /\ RoleOf(ev) = "creator"
+       [] c = "adjust_notstarted_ok" -> ev.name = "AdjustPool" /\ ev.ok /\ NotStartedP(ev.pool)
+       [] c = "destroy_over" -> ev.name = "DestroyPool" /\ Known(ev) /\ OverP(ev.pool) /\ RoleOf(ev) = "creator"
+                                /\ pre.pools[ev.pool].editable
+       [] c = "destroy_neverran" -> ev.name = "DestroyPool" /\ Known(ev) /\ NeverRanP(ev.pool) /\ RoleOf(ev) = "creator"
+       [] c = "destroy_notstarted_ok" -> ev.name = "DestroyPool" /\ ev.ok /\ NotStartedP(ev.pool)
+       [] c = "destroy_stranger" -> ev.name = "DestroyPool" /\ Known(ev) /\ ~OverP(ev.pool) /\ RoleOf(ev) # "creator"
+                                    /\ pre.pools[ev.pool].editable
+       [] c = "destroy_staked_ok" -> ev.name = "DestroyPool" /\ ev.ok /\ pre.pools[ev.pool].total > 0
+       [] c = "destroy_nothing_left" -> ev.name = "DestroyPool" /\ ~ev.ok /\ Known(ev) /\ QueuedP(ev.pool)
+                                        /\ RoleOf(ev) = "creator" /\ pre.pools[ev.pool].editable
+       [] c = "create_second" -> ev.name = "CreatePool" /\ ev.ok /\ pre.pools # <<>>
+       [] c = "role_creator" -> ev.name \in PoolOps /\ Known(ev) /\ RoleOf(ev) = "creator"
+       [] c = "role_staker" -> ev.name \in PoolOps /\ Known(ev) /\ RoleOf(ev) = "staker"
+       [] c = "role_stranger" -> ev.name \in PoolOps /\ Known(ev) /\ RoleOf(ev) = "stranger"
+       [] c = "refund_many" -> ev.name = "EndBlock" /\ Cardinality(RefundedIn(pre, ev, st)) >= 2
+       [] c = "refund_zero" -> ev.name = "EndBlock" /\ \E p \in RefundedIn(pre, ev, st) : ZeroRefund(p)
+       [] c = "refund_many_one_zero" -> ev.name = "EndBlock" /\ \E p, q \in RefundedIn(pre, ev, st) :
+                                          ZeroRefund(p) /\ ~ZeroRefund(q)
+       [] c = "refund_and_destroy_sameblock" -> ev.name = "EndBlock" /\ RefundedIn(pre, ev, st) # {}
+                                          /\ \E p \in DOMAIN pre.pools : SameBlockP(p)
+       [] c = "refund_part_zero" -> ev.name = "EndBlock" /\ \E p \in RefundedIn(pre, ev, st) :
+                                      /\ ~ZeroRefund(p)
+                                      /\ \E d \in DOMAIN pre.pools[p].rules : RefundAmt(p, d) = 0
+       [] c = "odd_start" -> ev.name = "CreatePoolFar" \/ (ev.name = "CreatePool" /\ ev.lpt = LP /\ ev.start < pre.h)
+       [] c = "other_denom" -> ev.name \in OtherDenomOps /\ Known(ev) /\ ~OverP(ev.pool) /\ ~NotStartedP(ev.pool)
+       [] c = "other_denom_staker" -> ev.name = "UnstakeOther" /\ Known(ev) /\ ev.who \in DOMAIN pre.fi[ev.pool]
+       [] c = "odd_pool" -> ev.name \in PoolOps /\ ~Known(ev)
+       [] c = "odd_lpt" -> ev.name = "CreatePool" /\ ev.lpt # LP
+       [] c = "odd_adjust" -> ev.name = "AdjustPool" /\ Known(ev) /\ RoleOf(ev) = "creator"
+                              /\ ~((DOMAIN ev.total \cup DOMAIN ev.rpb) \subseteq DOMAIN pre.pools[ev.pool].rules)
+       [] c = "unstake_ok" -> ev.name = "Unstake" /\ ev.ok
        [] c = "unstake_rej" -> ev.name = "Unstake" /\ ~ev.ok
        [] c = "stake_ok" -> ev.name = "Stake" /\ ev.ok
        [] c = "harvest_ok" -> ev.name = "Harvest" /\ ev.ok
